@@ -144,7 +144,7 @@ def run(ctx: core.Ctx) -> int:
         return R
     nfn = {}
     for name in ("_flatten_scoring_params", "_inverse_flatten_scoring_params"):
-        nfn[name] = normast.Normaliser(normast.class_resolver(mod, cls, exclude={"_flatten_dict_diagonal", "_inverse_flatten_dict_diagonal"}, module_funcs=False)).function(
+        nfn[name] = normast.Normaliser(normast.class_resolver(mod, cls, exclude={"_flatten_dict_diagonal", "_inverse_flatten_dict_diagonal"}, module_funcs="small")).function(
             core.find_func(cls, name))
     # ---- writer: process noise over the name-sorted controls first, then every sensor's noise over its sorted reading keys
     wfn = nfn["_flatten_scoring_params"]
@@ -342,7 +342,7 @@ def set_params_rule(ctx, cls, mod=None):
     sp = core.need(core.find_func(cls, "set_params"), q("set_params"))
     where = f"{F}:{q('set_params')}"
     if mod is not None:
-        sp = normast.Normaliser(normast.class_resolver(mod, cls, module_funcs=False), consts=normast.module_constants(mod)).function(sp)
+        sp = normast.Normaliser(normast.class_resolver(mod, cls, module_funcs="small"), consts=normast.module_constants(mod)).function(sp)
     else:
         sp = normast.Normaliser(None).function(sp)
     loops = [s_ for s_ in sp.body if isinstance(s_, ast.For)]
